@@ -10,7 +10,7 @@ from mc.explore import Stats, pmap, chunks, Product, seeded_rng, HarnessError
 from ref import refversion
 
 NUMS = ['0', '1', '2', '3', '10']
-SUFFIXES = ['', 'a', 'b', '-rc1', ' ']
+SUFFIXES = ['', 'a', 'b', '-rc1', ' ', 'a9', 'a10', 'a1x']
 
 
 def alphabet(nums=NUMS, suffixes=SUFFIXES, groups=(1, 2, 3)):
@@ -181,9 +181,9 @@ def cache_checks(st):
 def run(ctx):
     S = alphabet()
     if ctx.quick:
-        T = alphabet(nums=['0', '2', '10'], suffixes=['', 'a', 'b'], groups=(1, 2))       # 36 strings
+        T = alphabet(nums=['0', '2', '10'], suffixes=['', 'a', 'b', 'a9', 'a10', 'a1x'], groups=(1, 2))       # 72 strings
     else:
-        T = alphabet(nums=['0', '2', '10'], suffixes=['', 'a', 'b', ' '], groups=(1, 2, 3))  # 156 strings
+        T = alphabet(nums=['0', '2', '10'], suffixes=['', 'a', 'b', ' ', 'a9', 'a10', 'a1x'], groups=(1, 2, 3))  # 273 strings
     rng = seeded_rng(ctx.seed, 'c18')
     rows = list(S)
     rng.shuffle(rows)
